@@ -350,6 +350,45 @@ func runC05(c *Ctx) {
 	}
 	c.Min("C05.P1", 5)
 
+	// ---- P3 every non-literal primitive token goes through ParseFloat -> NumberToJSON
+	{
+		var stp *ssa.Function
+		for _, f := range cls {
+			if len(callsTo(f, ntj)) > 0 {
+				stp = f
+			}
+		}
+		if stp == nil {
+			c.Check("C05.P3", "number-tokens-through-NumberToJSON", false, tr.Pos(), "no closure of Transform calls NumberToJSON")
+		} else {
+			ok := true
+			var rets []string
+			for _, r := range returnsOf(stp) {
+				p := c.Path(r.Results[0], nil)
+				rets = append(rets, p)
+				isLit := p == "global:internal/jsoncanonicalizer.literals[ι]"
+				isNum := strings.HasPrefix(p, "internal/jsoncanonicalizer.NumberToJSON(strconv.ParseFloat(") && strings.HasSuffix(p, ",64)#0)#0")
+				if !isLit && !isNum {
+					ok = false
+				}
+			}
+			// the literal is returned only on equality with the token
+			okLit := false
+			forEachInstr(stp, func(in ssa.Instruction) {
+				if bo, isB := in.(*ssa.BinOp); isB && bo.Op == token.EQL && c.Path(bo.X, nil) == "global:internal/jsoncanonicalizer.literals[ι]" {
+					for _, e := range boolEdges(bo, true) {
+						if r, isR := e.to.Instrs[len(e.to.Instrs)-1].(*ssa.Return); isR && c.Path(r.Results[0], nil) == "global:internal/jsoncanonicalizer.literals[ι]" {
+							okLit = true
+						}
+					}
+				}
+			})
+			sort.Strings(rets)
+			c.Check("C05.P3", "number-tokens-through-NumberToJSON", ok && okLit && len(rets) >= 2, stp.Pos(), fmt.Sprintf("a primitive token is emitted either as the matching literal or as NumberToJSON(ParseFloat(token)) — no textual pass-through: %v", rets))
+		}
+	}
+	c.Min("C05.P3", 1)
+
 	// ---- P2
 	c.hashLeafContracts("C05.P2")
 
